@@ -7,6 +7,7 @@ import SigmaVerif.Lemmas.C06Sem
 import SigmaVerif.Lemmas.C06Alias
 import SigmaVerif.Lemmas.C06SemDet
 import SigmaVerif.Lemmas.C06Scalar
+import SigmaVerif.Lemmas.C06Split
 /-!
 # C06 — serialising a rule and loading it again preserves its meaning
 
@@ -19,7 +20,10 @@ What is proved, for every document (no bound on sizes or nesting):
 * an item, a detection, a detection section that loaded is written, and what is written loads to the
   *same object* (hence is written identically again, and means the same to any consumer of the object);
 * the exact classes for which this fails in the code are excluded by hypotheses and recorded as witness
-  theorems (findings D3, D62–D65 of the code; D60, D61, D67, D68 for transformed rules);
+  theorems (findings D3, D62–D65 of the code; D67 for transformed rules);
+* value transformations and one-to-many field mappings are faithful or refuse (`resync_faithful`,
+  `resync_nonplain_refuses`, `split_faithful`, `split_replaced_refuses`, `and_of_detections_refused`:
+  the former findings D60, D61, D68, fixed in the code);
 * an item on which `disable_conversion_to_plain()` was called makes every enclosing `to_plain` fail;
 * both date spellings read to the same date, the ISO spelling is a fixed point.
 * the specification's reading (`Rule.itemBE` / `Rule.detBE`, `Spec/Rule.lean`) of the written document
@@ -245,44 +249,64 @@ theorem rename_bar_unfaithful :
       (rename "a|contains".toList it).field = some "a|contains".toList ∧ it'.field = some ['a'] ∧
       it'.value = [.str false [.star, .lit 'x', .star]] := ⟨_, _, rfl, rfl, rfl, rfl, rfl, rfl⟩
 
-/-- A value transformation on an item without modifiers (`resync`: `original_value` := the new
-values) keeps the item serialisable and faithful, provided the new values are plain strings (uncased,
-no placeholder, D3 side condition), numbers, booleans or null. -/
+/-- A value transformation on an item without modifiers whose new values are plain strings (uncased,
+no placeholder, D3 side condition), numbers, booleans or null (`valueTouch` takes the `resync` branch:
+`original_value` := the new values) keeps the item serialisable and faithful. -/
 theorem resync_faithful (env : Env) (it : Ser.Item) (vs : List Val) (f : Str)
     (hm : it.mods = []) (hfield : it.field = if f.isEmpty then none else some f) (hf : '|' ∉ f)
     (hl : it.linkAnd = false) (hn : it.negated = false)
     (hvs : ∀ v ∈ vs, plainFaithful v = true) :
-    ∃ p, toPlainItem (resync vs it) = .ok p ∧ fromIPlain env p = .ok (resync vs it) :=
-  resync_reload env it vs f hm hfield hf hl hn hvs
+    ∃ p, toPlainItem (valueTouch vs it) = .ok p ∧ fromIPlain env p = .ok (valueTouch vs it) := by
+  rw [valueTouch_resync vs it hm hvs]
+  exact resync_reload env it vs f hm hfield hf hl hn hvs
 
-/-- D61: … and it is unfaithful for other value types: after the `regex` transformation the
-regular expression is written as a plain string and loads as a string match -/
-theorem resync_regex_unfaithful :
-    ∃ it', toPlainItem (resync [.re "[aA]".toList false false false] ⟨some ['f'], [], [], false, false, none⟩)
-        = .ok (.keyed ['f'] (.one (.str "[aA]".toList))) ∧
-      fromMapping env0 ['f'] (.one (.str "[aA]".toList)) = .ok it' ∧
-      it'.value = [.str false ("[aA]".toList.map .lit)] := ⟨_, rfl, rfl, rfl⟩
+/-- A value transformation on an item WITH modifiers, or one that yields a value that is not exactly a
+string / number / boolean / null (the `regex` transformation: a regular expression), disables
+serialisation: `to_plain` is a Sigma error.  (Before fix a600c5a of the code such values were written as
+plain strings and read back as string matches — former finding D61.) -/
+theorem resync_nonplain_refuses (vs : List Val) (it : Ser.Item)
+    (h : (it.mods.isEmpty && vs.all plainType) = false) :
+    toPlainItem (valueTouch vs it) = .error .refused :=
+  valueTouch_refuses vs it h
 
-/-- D60: a one-to-many field mapping (`split`) copies the item with the *modified* values as
-`original_value` while the modifiers stay: `f|base64: a` mapped to `g`, `h` is written as
-`g|base64: YQ==`, whose reload encodes a second time -/
-theorem split_reapplies_modifiers :
-    ∃ it i1 i2, fromMapping env0 "f|base64".toList (.one (.str ['a'])) = .ok it ∧
-      it.value = [.str false ("YQ==".toList.map .lit)] ∧
-      toPlainDet (split [['g'], ['h']] it) =
-        .ok (.list [.map [("g|base64".toList, .one (.str "YQ==".toList))],
-                    .map [("h|base64".toList, .one (.str "YQ==".toList))]]) ∧
-      fromDef env0 (.list [.map [("g|base64".toList, .one (.str "YQ==".toList))],
-                           .map [("h|base64".toList, .one (.str "YQ==".toList))]])
-        = .ok (.node [.node [.item i1] false, .node [.item i2] false] true) ∧
-      i1.value = [.str false ("WVE9PQ==".toList.map .lit)] := ⟨_, _, _, rfl, rfl, rfl, rfl, rfl⟩
+example : toPlainItem (valueTouch [.re "[aA]".toList false false false] ⟨some ['f'], [], [], false, false, some []⟩)
+    = .error .refused := rfl
+example : toPlainItem (valueTouch [.str false [.lit 'x']] ⟨some ['f'], ["contains".toList], [], false, false, some []⟩)
+    = .error .refused := rfl
 
-/-- D68: a detection whose children are all detections is written as a list whatever its linking: an
-AND-linked one (all items of a map replaced by sub-detections) loads back OR-linked -/
-theorem and_of_detections_written_as_list (a b : Det) (pa pb : PDef)
+/-- **One-to-many field mapping is faithful** (`split`: one copy per target field inside an OR-linked
+detection, each keeping the source item's `original_value`).  For a loaded item bound to a field and
+target names that can be keys: the detection of the copies is written (one map, or a list of maps), what
+is written loads, and the reload means what the transformed detection means.  (The reload is another
+object: every map of the list becomes a detection of its own.  Before fix 572dc5e the copies took the
+*modified* values as `original_value` and `f|base64: a` came back encoded twice — former finding D60.) -/
+theorem split_faithful (cx : Rule.Ctx) (k : Str) (v : PVals) (it : Ser.Item) (fs : List Str)
+    (h : fromMapping cx.env k v = .ok it) (hfield : it.field.isSome = true) (hv : valsOk k v = true)
+    (hne : fs ≠ []) (hok : fs.all fieldOk = true) :
+    ∃ q d', toPlainDet (split fs false it.value it) = .ok q ∧ fromDef cx.env q = .ok d' ∧
+      detObjBE cx d' = detObjBE cx (split fs false it.value it) :=
+  split_reload cx k v it fs h hfield hv hne hok
+
+/-- the base64 instance: `f|base64: a` mapped to `g`, `h` is written with the original value -/
+example : ∃ it, fromMapping env0 "f|base64".toList (.one (.str ['a'])) = .ok it ∧
+    toPlainDet (split [['g'], ['h']] false it.value it) =
+      .ok (.list [.map [("g|base64".toList, .one (.str ['a']))], .map [("h|base64".toList, .one (.str ['a']))]]) :=
+  ⟨_, rfl, rfl⟩
+
+/-- When the mapping replaced the value list (mapped field references) or the source was a keyword item
+(wildcards were added), every copy is disabled and the detection of the copies refuses. -/
+theorem split_replaced_refuses (fs : List Str) (replaced : Bool) (vs : List Val) (it : Ser.Item)
+    (hne : fs ≠ []) (h : (replaced || it.field.isNone) = true) :
+    ∀ q, toPlainDet (split fs replaced vs it) ≠ .ok q :=
+  Ser.split_replaced_refuses fs replaced vs it hne h
+
+/-- **Several AND-linked sub-detections are refused** (all items of a map replaced by detections): a
+list would read back OR-linked; OR-linked ones are written as a list.  (Before fix c403a46 the AND-linked
+ones were written as a list too — former finding D68.) -/
+theorem and_of_detections_refused (a b : Det) (pa pb : PDef)
     (ha : toPlainDet a = .ok pa) (hb : toPlainDet b = .ok pb) (na : a.isItem = false) (nb : b.isItem = false)
     (hna : isNone pa = false) (hnb : isNone pb = false) :
-    toPlainDet (.node [a, b] false) = .ok (.list [pa, pb]) ∧
+    toPlainDet (.node [a, b] false) = .error .refused ∧
     toPlainDet (.node [a, b] true) = .ok (.list [pa, pb]) := by
   constructor <;>
   · rw [toPlainDet]
